@@ -845,7 +845,7 @@ func runListCase(c ListCase) *pbt.Result {
 }
 
 var specLists = pbt.Register(pbt.Spec[ListCase]{
-	Prop: "C13", Name: "lists",
+	Prop: "C13", Name: "lists", Parallel: 8,
 	Rule:  "histories of 1-50 ops (Add*/Set* in all five argument flavours where the conversion to the element type is exact, Get* in all flavours + GetValue, AddAll, AddAllArray, ToArray, Write/Read) on Int/Long/Float/Double/String lists with initial capacity default/0..40 and indices in [-2, size+capacity+2], against a slice model; an out-of-range index must panic in every getter and setter; Write bytes must equal the reference (24-bit count + decimal/float/double/text elements); non-trivial = the backing array was re-allocated while the list held elements (capacity growth step crossed, observed by reflection); distinct by whole history",
 	Quick: 20000, Thorough: 3000000,
 	Draw: drawListCase, Run: noPanic(runListCase),
@@ -1101,7 +1101,7 @@ func runSortCase(c SortCase) *pbt.Result {
 }
 
 var specSorting = pbt.Register(pbt.Spec[SortCase]{
-	Prop: "C13", Name: "sorting",
+	Prop: "C13", Name: "sorting", Parallel: 8,
 	Rule:  "lists of 0-300 values (lengths on both sides of sort.Sort's insertion-sort limit) over an alphabet of 1-6 values (extremes, ±0, ±Inf, no NaN, empty string) so duplicates abound; 80% with a child list of any of the five types (numeric children within ±2^53); all four direction combinations; Sorting and SortingAnyList results must be a permutation of 0..n-1 whose consecutive elements are ordered by (primary, then child) in the requested directions; lists unchanged; Filtering(result) is the list in that order; in a third of the cases the list is then overwritten in place (Set, same length) with its values rotated by 1-7 positions and sorted again in both directions and with the child: the orders must be those of the new content; non-trivial = >= 2 equal primary keys; distinct by whole case",
 	Quick: 15000, Thorough: 2000000,
 	Draw: drawSortCase, Run: noPanic(runSortCase),
@@ -1204,7 +1204,7 @@ func runFilterCase(c FilterCase) *pbt.Result {
 }
 
 var specFiltering = pbt.Register(pbt.Spec[FilterCase]{
-	Prop: "C13", Name: "filtering",
+	Prop: "C13", Name: "filtering", Parallel: 8,
 	Rule:  "typed list of 0-30 elements and an index list of 0..2n+5 entries (repeats, more indices than elements; 1 case in 8 has one entry out of range, which must be reported by a panic); Filtering(idx)[i] == l[idx[i]] in every exact getter flavour, same list type, size len(idx), source unchanged; non-trivial = >= 2 indices; distinct by whole case",
 	Quick: 10000, Thorough: 1000000,
 	Draw: drawFilterCase, Run: noPanic(runFilterCase),
@@ -1423,7 +1423,7 @@ func runLLCase(c LLCase) *pbt.Result {
 }
 
 var specLinked = pbt.Register(pbt.Spec[LLCase]{
-	Prop: "C13", Name: "linkedlist",
+	Prop: "C13", Name: "linkedlist", Parallel: 8,
 	Rule:  "LinkedList histories of 1-60 ops (add-first/last, Add, put-before the i-th live node, remove the i-th live node, remove-first/last incl. on empty, clear, to-array, first/next/last walk, to-string) with int values from a small alphabet against a slice model; return values and Size() after every step; finally the list is drained from the back (checks the prev links); non-trivial = a put-before or node removal strictly inside a list of >= 3 nodes; distinct by whole history",
 	Quick: 10000, Thorough: 1000000,
 	Draw: drawLLCase, Run: noPanic(runLLCase),
